@@ -698,6 +698,23 @@ func buildCatalog(thorough bool) *catalog {
 		c.add("bip65-cltv-v4-before", "at", w1, 6, lab.BOpt{Version: 4, Txs: txs(cltvFail)})
 	}
 
+	// ---------------------------------------------------------------- segwit activating at height 8
+	// A witness program is anyone-can-spend until the block at the activation
+	// height: the last block before it (judged with its own, not its child's,
+	// deployment state) may spend one with an empty witness, the first block at
+	// it may not.
+	{
+		w4 := buildStd(specSegLate, 9, nil)
+		wp := w4.Outs["wpkh0"]
+		bare := func() []*wire.MsgTx {
+			return txs(spendTx(1, []out{wp}, 0xffffffff, []*wire.TxOut{txo(wp.Value, lab.OpTrue)}, 0))
+		}
+		c.add("segwit-activation-bare-spend", "at", w4, 6, lab.BOpt{Txs: bare()})
+		c.add("segwit-activation-bare-spend", "past", w4, 7, lab.BOpt{Txs: bare()}, "script")
+		ws := w4.Outs["wsh1"]
+		c.add("segwit-activation-bare-spend-wsh", "at", w4, 6, lab.BOpt{Txs: txs(spendTx(1, []out{ws}, 0xffffffff, []*wire.TxOut{txo(ws.Value, lab.OpTrue)}, 0))})
+	}
+
 	// ---------------------------------------------------------------- CSV not active
 	{
 		w3 := buildStd(specCsvOff, 9, nil)
